@@ -575,7 +575,7 @@ func parse_in(tokens []*Token, token_index int, not bool) (*AstList, int, error)
 			return nil, next_index, err
 		}
 		contents = append(contents, listable)
-		current_index = next_index
+		current_index = consumeIgnoreableTokens(tokens, next_index)
 		current_token = tokens[current_index]
 	}
 	inList := AstList{Contents: contents, Not: not}
